@@ -1420,46 +1420,51 @@ def slice_C18(ctx):
     rng = ctx.rng
     # a pool of regexes and a history of calls with interleaved, partially consumed iterators
     pool = []        # (dialect, flags, pattern, alphabet its inputs are drawn from)
-    while len(pool) < ctx.n(10, 20):
+    while len(pool) < 5:
         al = rng.choice(["ab", "abc", "aAb"])
         g = gen.Gen(rng, alphabet=al)
         _, p = g.pattern(rng.randint(1, 7))
-        d = "xpath"
-        pool.append((d, rng.choice(["", "i", "m", "s"]), p, al))
-    # shapes whose matching goes through the per-matcher scratch state (zero-length memo, captures,
-    # back-references) and the process-wide block table
-    pool += [("xpath", "", "^(?:yy|y|(?:ab|c)*d){3}$", "ydabc"), ("xpath", "", "(?:a|b)*c", "abc"),
-             ("xpath", "", "(?:a|bc)*x", "abcx12"), ("xpath", "", "(?:ab|c)*d", "abcd1"), ("xpath", "", "(a|b)*\\1x", "abx"),
-             ("xpath", "", "(?:a*)*b", "ab1"), ("xpath", "i", "(?:a|bb)*?c", "abcC"), ("xpath", "", "(a)|(b)\\1?c", "abc"),
+        pool.append(("xpath", rng.choice(["", "i", "m", "s"]), p, al))
+    # shapes whose matching goes through the per-matcher scratch state (zero-length memo of a
+    # variable-length repeat, captures, back-references) and the process-wide block table
+    while len(pool) < 14:
+        w1 = "".join(rng.choice("abc") for _ in range(rng.randint(1, 2)))
+        w2 = "".join(rng.choice("abc") for _ in range(rng.randint(1, 2)))
+        if len(w1) == len(w2):
+            w2 += rng.choice("abc")
+        tail = rng.choice("xd1")
+        shape = rng.choice(["(?:%s|%s)*%s", "(%s|%s)*%s", "%s?(?:%s)*%s", "(?:%s|%s)*?%s", "(?:%s|%s){0,3}%s"])
+        pool.append(("xpath", rng.choice(["", "", "i"]), shape % (w1, w2, tail), "abc" + tail + tail))
+    pool += [("xpath", "", "^(?:yy|y|(?:ab|c)*d){3}$", "ydabc"), ("xpath", "", "(?:a|bc)*x", "abcxx1"),
+             ("xpath", "", "(a|b)*\\1x", "abxx"), ("xpath", "", "(a)|(b)\\1?c", "abc"),
              ("xpath", "", "\\p{IsGreek}+|\\p{IsBasicLatin}", "aβγ1"), ("xsd", "", "[a-c]+", "abcx")]
     ops, expect_cases = [], []
     handles = 0
     live = []
-    nops = ctx.n(1500, 15000)
+    nops = ctx.n(4000, 40000)
     for k in range(nops):
         r = rng.randrange(len(pool))
-        inp = "".join(rng.choice(pool[r][3]) for _ in range(rng.randint(0, 7)))
+        inp = "".join(rng.choice(pool[r][3]) for _ in range(rng.randint(0, 9)))
+        if live and rng.random() < 0.6:
+            # another call on the very object (and often the very input) a live iterator is working on
+            _, _, r, inp0 = rng.choice(live)
+            inp = inp0 if rng.random() < 0.6 else "".join(rng.choice(pool[r][3]) for _ in range(rng.randint(0, 9)))
         kind = rng.random()
-        if kind < 0.25:
-            ops.append(("m", r, inp))
-        elif kind < 0.4:
-            ops.append(("r", r, inp, rng.choice(["-", "$0", "[$1]"])))
-        elif kind < 0.55:
-            ops.append(("T", r, inp, handles))
-            live.append(("t", handles, r, inp))
+        if len(live) < 4 and kind < 0.25:
+            which = "T" if rng.random() < 0.5 else "A"
+            ops.append((which, r, inp, handles))
+            live.append((which.lower(), handles, r, inp))
             handles += 1
-        elif kind < 0.7:
-            ops.append(("A", r, inp, handles))
-            live.append(("a", handles, r, inp))
-            handles += 1
-        elif live and kind < 0.96:
-            h = rng.choice(live[-6:])
+        elif live and kind < 0.70:
+            h = rng.choice(live)
             ops.append(("N", h[1]))
-        elif live:
+        elif live and kind < 0.74:
             h = live.pop(rng.randrange(len(live)))
             ops.append(("D", h[1]))
-        else:
+        elif kind < 0.87:
             ops.append(("m", r, inp))
+        else:
+            ops.append(("r", r, inp, rng.choice(["-", "$0", "[$1]"])))
     lines = []
     for i, (d, f, p, _al) in enumerate(pool):
         lines.append("\t".join(["R", str(i), d, tie.enc(f), tie.enc(p)]))
